@@ -57,6 +57,40 @@ type c15Scenario struct {
 	RefusalKind int `json:"refusal_kind,omitempty"`
 }
 
+// c15TypeFromFile: the type switch is written in a configuration file as a ${VAR} placeholder whose variable is not set in
+// the environment (a deployment that forgot to export it). The file is read the way NewDcp(path, ...) reads it; what the type
+// option holds afterwards (with the defaults applied) is what the start-up sees. A placeholder that is not replaced is not a
+// known type.
+func c15TypeFromFile(which, placeholder string) string {
+	dir := os.Getenv("VERIF_WORK")
+	if dir == "" {
+		dir = os.TempDir()
+	}
+	path := filepath.Join(dir, fmt.Sprintf("c15cfg-%d-%d.yml", os.Getpid(), time.Now().UnixNano()))
+	quoted := placeholder
+	if strings.HasSuffix(placeholder, "Q") { // written with quotes in the file
+		placeholder = strings.TrimSuffix(placeholder, "Q")
+		quoted = "\"" + placeholder + "\""
+	}
+	yaml := "hosts:\n  - localhost:8091\nusername: u\npassword: p\nbucketName: b\ndcp:\n  group:\n    name: g\n"
+	if which == "membership" {
+		yaml += "    membership:\n      type: " + quoted + "\n      memberNumber: 1\n      totalMembers: 1\nmetadata:\n  type: couchbase\n"
+	} else {
+		yaml += "    membership:\n      type: static\nmetadata:\n  type: " + quoted + "\n"
+	}
+	_ = os.WriteFile(path, []byte(yaml), 0o644)
+	defer os.Remove(path)
+	loaded, err := godcp.VerifNewDcpConfig(path)
+	if err != nil {
+		panic(fmt.Sprintf("HARNESS: config file rejected: %v", err))
+	}
+	loaded.ApplyDefaults()
+	if which == "membership" {
+		return loaded.Dcp.Group.Membership.Type
+	}
+	return loaded.Metadata.Type
+}
+
 func (sc c15Scenario) rangeOf() (int, int) { return c16Range(sc.NumVb, sc.Total, sc.Member) }
 
 // which fault (if any) must stop the start-up; "" = the session must start
@@ -129,6 +163,9 @@ func c15Child(raw json.RawMessage) any {
 	n := hi - lo + 1
 	cfg := laConfig()
 	cfg.Dcp.Group.Membership.Type = sc.Membership
+	if strings.HasPrefix(sc.Membership, "${") {
+		cfg.Dcp.Group.Membership.Type = c15TypeFromFile("membership", sc.Membership)
+	}
 	cfg.Dcp.Group.Membership.TotalMembers = sc.Total
 	cfg.Dcp.Group.Membership.MemberNumber = sc.Member
 	cfg.Checkpoint.AutoReset = sc.Reset
@@ -269,6 +306,9 @@ func c15Child(raw json.RawMessage) any {
 	}}
 	if sc.MetaType != "" {
 		cfg.Metadata.Type = sc.MetaType
+		if strings.HasPrefix(sc.MetaType, "${") {
+			cfg.Metadata.Type = c15TypeFromFile("metadata", sc.MetaType)
+		}
 	}
 	d := godcp.VerifNewDcp(cfg, cl, cons, &couchbase.Version{Major: 7, Minor: 6}, &couchbase.BucketInfo{BucketType: "membase"})
 	if sc.MetaType == "" && sc.FileDump == "" {
@@ -491,9 +531,9 @@ func c15Gen(rt *rapid.T) c15Scenario {
 	case "open":
 		sc.OpenErr = subset("open")
 	case "membership":
-		sc.Membership = rapid.SampledFrom([]string{"", "Static", "couchbasee", "kubernetes", "dynamic "}).Draw(rt, "mtype")
+		sc.Membership = rapid.SampledFrom([]string{"", "Static", "couchbasee", "kubernetes", "dynamic ", "${VERIF_C15_UNSET_MEMBERSHIP}", "${VERIF_C15_UNSET_MEMBERSHIP}Q"}).Draw(rt, "mtype")
 	case "metadata":
-		sc.MetaType = rapid.SampledFrom([]string{"File", "redis", " couchbase", "x"}).Draw(rt, "metatype")
+		sc.MetaType = rapid.SampledFrom([]string{"File", "redis", " couchbase", "x", "${VERIF_C15_UNSET_METADATA}", "${VERIF_C15_UNSET_METADATA}Q"}).Draw(rt, "metatype")
 	case "leader":
 		sc.LeaderType = rapid.SampledFrom([]string{"Kubernetes", "etcd", "x"}).Draw(rt, "ltype")
 	case "seq_omit":
